@@ -12,6 +12,8 @@ package core
 //@ ghost field conn.wlog (Array Int Slice)
 
 //@ define closedfx(c) = !c.opened ==> (c.inMsgQueue == nil && c.inFragQueue == nil && c.outFragQueue == nil)
+// what newTCPConn / eventloop.open establish for a live connection and closeConn relies on (assumed at its call sites)
+//@ define connok(el, c) = c != nil && closedfx(c) && (c.opened ==> (c.loop != nil && c.loop.ln != nil && c.outboundBuffer != nil && el.eventHandler != nil && el.poller != nil && el.connections != nil && c.inMsgQueue != nil && c.inFragQueue != nil && c.outFragQueue != nil))
 
 //@ func conn.write
 //@   flags trusted
@@ -33,11 +35,29 @@ package core
 //@   ensures c.opened ==> (old(c.opened) && c.inMsgQueue == old(c.inMsgQueue) && c.inFragQueue == old(c.inFragQueue) && c.outFragQueue == old(c.outFragQueue) && err == nil)
 //@   ensures closedfx(c)
 
+//@ func conn.releaseTCP
+//@   props C15
+//@   requires c.loop != nil && c.loop.ln != nil && c.outboundBuffer != nil
+//@   modifies c.opened, c.buffer, c.localAddr, c.remoteAddr, c.pollAttachment, c.initStep, c.initStatus, c.isSlave, c.connType
+//@   modifies c.inMsgQueue, c.inFragQueue, c.outFragQueue, elastic.RingBuffer.rb, elastic.Buffer.pending, linkedlist.Buffer.bs, linkedlist.Buffer.head, linkedlist.Buffer.tail, linkedlist.Buffer.size, linkedlist.Buffer.bytes
+//@   ensures !c.opened && c.inMsgQueue == nil && c.inFragQueue == nil && c.outFragQueue == nil
+
+// eventloop.closeConn (C15): the close callbacks see the connection with its queues still in place (so that they can
+// resolve what is pending on it); afterwards the connection is closed and its queues are gone.
 //@ func eventloop.closeConn
-//@   flags trusted
+//@   props C15
+//@   requires connok(el, c)
+//@   assume at call listenServer.OnSClosed#0 :: c.inFragQueue != nil && fwf(c.inFragQueue)
+//@   assert[callback.first@C15] at call listenServer.OnSClosed#0 :: c.opened && c.inFragQueue != nil && c.outFragQueue != nil
+//@   assert[callback.first.c@C15] at call listenServer.OnCClosed#0 :: c.opened && c.inMsgQueue != nil
 //@   modifies c.opened, c.buffer, c.localAddr, c.remoteAddr, c.pollAttachment, c.initStep, c.initStatus, c.isSlave, c.connType
 //@   modifies c.inMsgQueue, c.inFragQueue, c.outFragQueue, elastic.RingBuffer.rb, ring.Buffer.r, ring.Buffer.w, ring.Buffer.isEmpty
+//@   modifies elastic.Buffer.pending, linkedlist.Buffer.bs, linkedlist.Buffer.head, linkedlist.Buffer.tail, linkedlist.Buffer.size, linkedlist.Buffer.bytes
+//@   modifies mapof(el.connections), FragQueue.head, FragQueue.tail, FragQueue.count, Frag.next, Frag.prev, Frag.intree
 //@   ensures !c.opened && closedfx(c)
+//@   loop 0
+//@     invariant c != nil && c.loop != nil && c.loop.ln != nil && c.outboundBuffer != nil && c.opened && el.eventHandler != nil && el.poller != nil && el.connections != nil
+//@     invariant c.inMsgQueue != nil && c.inFragQueue != nil && c.outFragQueue != nil
 
 //@ define alldone(l) = forall i int :: 0 <= i && i < l.count ==> mqm(l, i).Done
 //@ define cl(c) = c.inMsgQueue
@@ -61,6 +81,8 @@ package core
 //@   label W at call RingBuffer.Write#0
 //@   assume at call RingBuffer.Write#0 :: elastic.ewf(s.inboundBuffer) && (s.inboundBuffer.rb == nil || s.buffer.base != s.inboundBuffer.rb.buf.base)
 //@   ensures[leftover@C08] reached(W) ==> (elastic.elen(s.inboundBuffer) == atlabel(W, slen(s)) && (forall k int :: (0 <= k && k < elastic.elen(s.inboundBuffer)) ==> elastic.eat(s.inboundBuffer, k) == atlabel(W, sat(s, k))))
+//@   assume at call eventloop.closeConn#0 :: connok(el, s)
+//@   assume at call eventloop.closeConn#1 :: connok(el, c)
 //@   label E at call Errorf#0
 //@   label G at call MsgQueue.Empty#0
 //@   assume at call MsgQueue.Empty#0 :: cl(c) != nil && mwf(cl(c)) && c.loop != nil
@@ -106,6 +128,7 @@ package core
 //@ func eventloop.handleAction
 //@   props C18
 //@   requires c != nil
+//@   assume at call eventloop.closeConn :: connok(el, c)
 //@   ensures[close@C18] action == Close ==> !c.opened
 //@   ensures[none] action == None ==> (result == nil && c.opened == old(c.opened) && c.wcount == old(c.wcount))
 
@@ -146,6 +169,7 @@ package core
 //@   props C01 C03 C08 C12
 //@   requires c != nil && c.loop != nil && EngineGlobal != nil && el.eventHandler != nil && c.opened
 //@   assume at call conn.cread#0 :: swf(c)
+//@   assume at call eventloop.closeConn :: connok(el, c)
 //@   label W at call RingBuffer.Write#0
 //@   assume at call RingBuffer.Write#0 :: elastic.ewf(c.inboundBuffer) && (c.inboundBuffer.rb == nil || c.buffer.base != c.inboundBuffer.rb.buf.base)
 //@   ensures[leftover@C08] reached(W) ==> (elastic.elen(c.inboundBuffer) == atlabel(W, slen(c)) && (forall k int :: (0 <= k && k < elastic.elen(c.inboundBuffer)) ==> elastic.eat(c.inboundBuffer, k) == atlabel(W, sat(c, k))))
